@@ -2,6 +2,7 @@ package statsd
 
 import (
 	"context"
+	"sync"
 	"sync/atomic"
 
 	"github.com/ash2k/stager/wait"
@@ -34,6 +35,9 @@ type CloudHandler struct {
 	wg              eventCounter
 
 	estimatedTags int
+
+	// releasers counts the goroutines handleInstanceInfo has started; Run waits for them before it returns.
+	releasers sync.WaitGroup
 }
 
 // NewCloudHandler initialises a new cloud handler.
@@ -173,6 +177,9 @@ func (ch *CloudHandler) Run(ctx context.Context) {
 	)
 	infoSource := ch.cachedInstances.InfoSource()
 	ipSink := ch.cachedInstances.IpSink()
+	// The goroutines that hand released metrics and events to the next handler must be gone when Run returns:
+	// the stages they dispatch into are stopped, and their queues closed, only after this one.
+	defer ch.releasers.Wait()
 	for {
 		select {
 		case <-ctx.Done():
@@ -206,6 +213,7 @@ func (ch *CloudHandler) handleInstanceInfo(ctx context.Context, info gostatsd.In
 	if mm != nil {
 		delete(ch.awaitingMetrics, info.IP)
 		ch.statsMetricHostsQueued--
+		ch.releasers.Add(1)
 		go ch.updateAndDispatchMetrics(ctx, info.Instance, mm)
 	}
 	events := ch.awaitingEvents[info.IP]
@@ -213,6 +221,7 @@ func (ch *CloudHandler) handleInstanceInfo(ctx context.Context, info gostatsd.In
 		delete(ch.awaitingEvents, info.IP)
 		ch.statsEventItemsQueued -= uint64(len(events))
 		ch.statsEventHostsQueued--
+		ch.releasers.Add(1)
 		go ch.updateAndDispatchEvents(ctx, info.Instance, events)
 	}
 }
@@ -265,6 +274,7 @@ func (ch *CloudHandler) handleIncomingEvent(e *gostatsd.Event) {
 }
 
 func (ch *CloudHandler) updateAndDispatchMetrics(ctx context.Context, instance *gostatsd.Instance, mmIn *gostatsd.MetricMap) {
+	defer ch.releasers.Done()
 	mmOut := gostatsd.NewMetricMap(false)
 	mmIn.Counters.Each(func(metricName string, tagsKey string, c gostatsd.Counter) {
 		updateInplace(&c, instance)
@@ -286,6 +296,7 @@ func (ch *CloudHandler) updateAndDispatchMetrics(ctx context.Context, instance *
 }
 
 func (ch *CloudHandler) updateAndDispatchEvents(ctx context.Context, instance *gostatsd.Instance, events []*gostatsd.Event) {
+	defer ch.releasers.Done()
 	var dispatched int
 	defer func() {
 		ch.wg.Add(-dispatched)
